@@ -67,4 +67,8 @@ theorem helpers_private :
     Gen.helperCallers.all (fun c => (Ref.entryPoints.map ("__init__." ++ ·)).contains c.1) = true := by
   decide
 
+/-- Tie A: every call into the parsing engine anywhere in the package runs under `parse_locker` (the engine
+keeps a global whitespace stack; `format`'s keyword probe used to run it outside the lock — repaired) -/
+theorem engine_only_under_lock : Gen.engineCalls.all (·.2) = true := by decide
+
 end MoSql.Props.C16
